@@ -309,6 +309,25 @@ func checkDStar2(r *dstarRun, c dstarCase) *vk.Failure {
 			var valid []arc
 			neg := false
 			for _, a := range op.Ch {
+				if a.U == -1 {
+					// the V-th arc (cyclically) of the plan last returned by Path():
+					// the robot finds the cost of an arc on its route changed
+					if len(prevP) >= 2 && a.V >= 0 {
+						j := a.V % (len(prevP) - 1)
+						a.U, a.V = r.m.idx[prevP[j].ID()], r.m.idx[prevP[j+1].ID()]
+						// only increases (W is added to the present weight, +Inf
+						// blocks), so that the heuristic, which is built before the
+						// plan is known, stays a lower bound
+						if old := r.m.w[a.U][a.V]; a.W < 0 || math.IsNaN(old) {
+							continue
+						} else {
+							a.W = vk.F(old + float64(a.W))
+						}
+						vk.Class("dstar-change=arc-on-current-plan")
+					} else {
+						continue
+					}
+				}
 				if a.U != a.V && a.U >= 0 && a.V >= 0 && a.U < n && a.V < n && !math.IsNaN(float64(a.W)) {
 					valid = append(valid, a)
 					neg = neg || a.W < 0
@@ -454,7 +473,9 @@ func drawDStar(t *rapid.T) dstarCase {
 			nch := rapid.IntRange(1, 3).Draw(t, "nch")
 			for j := 0; j < nch; j++ {
 				var a arc
-				if len(c.Arcs) > 0 && rapid.IntRange(0, 3).Draw(t, "existing") > 0 {
+				if rapid.IntRange(0, 2).Draw(t, "onplan") == 0 {
+					a.U, a.V = -1, rapid.IntRange(0, 5).Draw(t, "planpos")
+				} else if len(c.Arcs) > 0 && rapid.IntRange(0, 3).Draw(t, "existing") > 0 {
 					e := c.Arcs[r.Intn(len(c.Arcs))]
 					a.U, a.V = e.U, e.V
 				} else {
@@ -477,5 +498,5 @@ func drawDStar(t *rapid.T) dstarCase {
 }
 
 func TestDStarLite(t *testing.T) {
-	vk.Run(t, "dstar", vk.Opts{Quick: 6000, Thorough: 120000}, drawDStar, checkDStar)
+	vk.Run(t, "dstar", vk.Opts{Quick: 10000, Thorough: 250000}, drawDStar, checkDStar)
 }
